@@ -1,5 +1,6 @@
 """C12 — value types: equality, hashing, ordering, immutability.
-(Duration/Instant/Offset/LocalTime comparisons are lemmas of C03/C10; _YearMonthDay ordering and packing are lemmas of C01.)"""
+(Duration/Instant/Offset ordering is also C03's subject and is declared here too: elapsed_order; LocalTime comparisons are C10's;
+_YearMonthDay ordering and packing are lemmas of C01.)"""
 from symx import stubs
 from symx.driver import assume
 from symx.lemma import lemma
@@ -264,3 +265,38 @@ def premise_hash_reads_eq_fields(P):
             if extra:
                 bad.append((c.name, sorted(extra)))
     return (not bad), (f"{seen} classes with __eq__ and __hash__ checked" if not bad else f"__hash__ reads fields __eq__ ignores: {bad}")
+
+
+@lemma({"d1": int, "n1": int, "d2": int, "n2": int}, params=["Duration", "Instant", "Offset"], budget=90, per_path=30,
+       bounds="every pair of valid Durations / Instants / Offsets: ==, !=, <, <=, >, >=, compare_to, equals, min and max all agree with the "
+              "order of the underlying integers (nanoseconds; seconds for Offset)")
+def elapsed_order(P):
+    def h(d1, n1, d2, n2):
+        if P == "Offset":
+            assume(-64800 <= d1 <= 64800)
+            assume(-64800 <= d2 <= 64800)
+            assume(n1 == 0)
+            assume(n2 == 0)
+            a, b, ta, tb = Offset.from_seconds(d1), Offset.from_seconds(d2), d1, d2
+            key = lambda x: x.seconds                                                   # noqa: E731
+        else:
+            for n in (n1, n2):
+                assume(0 <= n < NPD)
+            lo, hi = (Duration._MIN_DAYS, Duration._MAX_DAYS) if P == "Duration" else (Instant._MIN_DAYS, Instant._MAX_DAYS)
+            for d in (d1, d2):
+                assume(lo <= d <= hi)
+            if P == "Duration":
+                a, b = Duration._ctor(days=d1, nano_of_day=n1), Duration._ctor(days=d2, nano_of_day=n2)
+                key = lambda x: x._floor_days * NPD + x._nanosecond_of_floor_day          # noqa: E731
+            else:
+                a, b = Instant._ctor(days=d1, nano_of_day=n1), Instant._ctor(days=d2, nano_of_day=n2)
+                key = lambda x: x._days_since_epoch * NPD + x._nanosecond_of_day          # noqa: E731
+            ta, tb = d1 * NPD + n1, d2 * NPD + n2
+        c = a.compare_to(b)
+        ok = (a == b) == (ta == tb) and (a != b) == (ta != tb) and (a < b) == (ta < tb) and (a <= b) == (ta <= tb)
+        ok = ok and (a > b) == (ta > tb) and (a >= b) == (ta >= tb) and a.equals(b) == (ta == tb)
+        ok = ok and (c < 0) == (ta < tb) and (c == 0) == (ta == tb) and (c > 0) == (ta > tb)
+        cls = type(a)
+        ok = ok and key(cls.max(a, b)) == max(ta, tb) and key(cls.min(a, b)) == min(ta, tb)
+        return ok
+    return h
